@@ -978,9 +978,9 @@ class SyncObj(object):
                     if serialized[2]:
                         self.__sendNextNodeIdx(node, nextNodeIdx=self.__raftLastApplied + 1, success=True)
                 elif self.__serializer.setTransmissionData(serialized):
-                    self.__loadDumpFile(clearJournal=True)
-                    self.__sendNextNodeIdx(node, success=True)
-                    verifiedLogIdx = self.__getCurrentLogIndex()
+                    if self.__loadDumpFile(clearJournal=True):
+                        self.__sendNextNodeIdx(node, success=True)
+                        verifiedLogIdx = self.__getCurrentLogIndex()
 
             if verifiedLogIdx is not None:
                 newCommitIndex = min(leaderCommitIndex, verifiedLogIdx)
@@ -1451,8 +1451,10 @@ class SyncObj(object):
             if self.__conf.dynamicMembershipChange:
                 self.__updateClusterConfiguration([node for node in data[3] if node != self.__selfNode])
             self.__onSetCodeVersion(0)
+            return True
         except:
             logger.exception('failed to load full dump')
+            return False
 
     def __updateClusterConfiguration(self, newNodes):
         # newNodes: list of Node or node ID
